@@ -419,6 +419,178 @@ Definition run_case (base : option gtree) (p : list instr) : perr + (hs * list g
   | inr _ => inl EStack
   end.
 
+(* ------------------------------------------------------------------ the source grammar *)
+(* Parse trees over a production table in the format of Gen/Grammar.v (lhs, rhs symbols), which
+   harness/translate_grammar.py regenerates from CellParser on every run, and the semantic actions of the
+   geometry productions keyed by the production itself.  [stok] are the tokens of CellParser that can occur
+   inside a geometry; SPad stands for every token the "padding" productions accept. *)
+Inductive padkind := PSpace | PComment | PDollar | PAmp.
+
+Inductive stok :=
+| SNum (pos : bool) (n : Z)       (* NUMBER *)
+| SHash                           (* COMPLEMENT *)
+| SLP | SRP | SColon              (* "(" ")" ":" *)
+| SPad (k : padkind).             (* SPACE COMMENT DOLLAR_COMMENT & *)
+
+Definition stok_class (t : stok) : string :=
+  match t with
+  | SNum _ _ => "NUMBER"
+  | SHash => "COMPLEMENT"
+  | SLP => "("
+  | SRP => ")"
+  | SColon => ":"
+  | SPad PSpace => "SPACE"
+  | SPad PComment => "COMMENT"
+  | SPad PDollar => "DOLLAR_COMMENT"
+  | SPad PAmp => "&"
+  end%string.
+
+Definition gprod := (string * list string)%type.
+
+Fixpoint strs_eqb (a b : list string) : bool :=
+  match a, b with
+  | [], [] => true
+  | x :: a', y :: b' => andb (String.eqb x y) (strs_eqb a' b')
+  | _, _ => false
+  end.
+Definition gprod_eqb (p q : gprod) : bool := andb (String.eqb (fst p) (fst q)) (strs_eqb (snd p) (snd q)).
+
+Inductive ptree :=
+| PTok (t : stok)
+| PNode (lhs : string) (rhs : list string) (kids : list ptree).
+
+Definition proot (t : ptree) : string :=
+  match t with PTok k => stok_class k | PNode l _ _ => l end.
+
+Fixpoint pyield (t : ptree) : list stok :=
+  match t with
+  | PTok k => [k]
+  | PNode _ _ ks => flat_map pyield ks
+  end.
+
+(* every inner node is an instance of a production of G *)
+Fixpoint pwf (G : list gprod) (t : ptree) : bool :=
+  match t with
+  | PTok _ => true
+  | PNode l r ks =>
+      andb (andb (existsb (gprod_eqb (l, r)) G) (strs_eqb (map proot ks) r)) (forallb (pwf G) ks)
+  end.
+
+(* one name per function of CellParser that is decorated with geometry productions *)
+Inductive grule :=
+| RNumber            (* geometry_factory : NUMBER *)
+| RParens            (* geometry_factory : "(" geometry_expr ")" *)
+| RParensPad         (* geometry_factory : "(" padding geometry_expr ")" *)
+| RFactorOfFactory   (* geometry_factor : geometry_factory *)
+| RComplement        (* geometry_factor : COMPLEMENT geometry_factory *)
+| RTermOfFactor      (* geometry_term : geometry_factor *)
+| RTermPad           (* geometry_term : geometry_term padding *)
+| RInterPad          (* geometry_term : geometry_term padding geometry_factor *)
+| RInterImplicit     (* geometry_term : geometry_term geometry_factory *)
+| RShortcut          (* geometry_term : geometry_term REPEAT | MULTIPLY | INTERPOLATE ... : not modelled *)
+| RExprOfTerm        (* geometry_expr : geometry_term *)
+| RUnion             (* geometry_expr : geometry_expr union geometry_term *)
+| RColon             (* union : ":" *)
+| RColonPad.         (* union : union padding *)
+
+(* the geometry productions of CellParser, in the order of the generated table *)
+Definition geom_rules : list (gprod * grule) := [
+  (("union", ["union"; "padding"]), RColonPad);
+  (("union", [":"]), RColon);
+  (("geometry_expr", ["geometry_term"]), RExprOfTerm);
+  (("geometry_expr", ["geometry_expr"; "union"; "geometry_term"]), RUnion);
+  (("geometry_term", ["geometry_factor"]), RTermOfFactor);
+  (("geometry_term", ["geometry_term"; "padding"]), RTermPad);
+  (("geometry_term", ["geometry_term"; "LOG_INTERPOLATE"; "padding"; "number_phrase"]), RShortcut);
+  (("geometry_term", ["geometry_term"; "NUM_LOG_INTERPOLATE"; "padding"; "number_phrase"]), RShortcut);
+  (("geometry_term", ["geometry_term"; "INTERPOLATE"; "padding"; "number_phrase"]), RShortcut);
+  (("geometry_term", ["geometry_term"; "NUM_INTERPOLATE"; "padding"; "number_phrase"]), RShortcut);
+  (("geometry_term", ["geometry_term"; "MULTIPLY"]), RShortcut);
+  (("geometry_term", ["geometry_term"; "NUM_MULTIPLY"]), RShortcut);
+  (("geometry_term", ["geometry_term"; "REPEAT"]), RShortcut);
+  (("geometry_term", ["geometry_term"; "NUM_REPEAT"]), RShortcut);
+  (("geometry_term", ["geometry_term"; "geometry_factory"]), RInterImplicit);
+  (("geometry_term", ["geometry_term"; "padding"; "geometry_factor"]), RInterPad);
+  (("geometry_factor", ["COMPLEMENT"; "geometry_factory"]), RComplement);
+  (("geometry_factor", ["geometry_factory"]), RFactorOfFactory);
+  (("geometry_factory", ["("; "padding"; "geometry_expr"; ")"]), RParensPad);
+  (("geometry_factory", ["("; "geometry_expr"; ")"]), RParens);
+  (("geometry_factory", ["NUMBER"]), RNumber)
+]%string.
+
+Definition geom_lhs (s : string) : bool :=
+  existsb (String.eqb s) ["union"; "geometry_expr"; "geometry_term"; "geometry_factor"; "geometry_factory"]%string.
+
+(* the part of a generated production table the model has to account for *)
+Definition geom_table (G : list gprod) : list gprod := filter (fun p => geom_lhs (fst p)) G.
+
+Fixpoint rule_lookup (p : gprod) (tbl : list (gprod * grule)) : option grule :=
+  match tbl with
+  | [] => None
+  | (q, r) :: rest => if gprod_eqb p q then Some r else rule_lookup p rest
+  end.
+Definition rule_of (l : string) (r : list string) : option grule := rule_lookup (l, r) geom_rules.
+
+Definition opt2 {A B C : Type} (f : A -> B -> C) (a : option A) (b : option B) : option C :=
+  match a, b with Some x, Some y => Some (f x y) | _, _ => None end.
+
+(* the syntax tree CellParser builds for a parse tree (None: no tree — padding, union — or not modelled) *)
+Fixpoint pact (t : ptree) : option gtree :=
+  match t with
+  | PTok _ => None
+  | PNode l r ks =>
+      match rule_of l r, ks with
+      | Some RNumber, [PTok (SNum pos n)] => Some (act_number pos n)
+      | Some RParens, [_; e; _] => option_map act_parens (pact e)
+      | Some RParensPad, [_; _; e; _] => option_map act_parens (pact e)
+      | Some RFactorOfFactory, [f] => pact f
+      | Some RComplement, [_; f] => option_map act_complement (pact f)
+      | Some RTermOfFactor, [f] => pact f
+      | Some RTermPad, [a; _] => pact a
+      | Some RInterPad, [a; _; b] => opt2 act_intersection (pact a) (pact b)
+      | Some RInterImplicit, [a; b] => opt2 act_intersection (pact a) (pact b)
+      | Some RExprOfTerm, [a] => option_map act_expr_of_term (pact a)
+      | Some RUnion, [a; _; b] => opt2 act_union (pact a) (pact b)
+      | _, _ => None
+      end
+  end.
+
+Fixpoint uses_shortcut (t : ptree) : bool :=
+  match t with
+  | PTok _ => false
+  | PNode l r ks =>
+      orb (match rule_of l r with Some RShortcut => true | _ => false end) (existsb uses_shortcut ks)
+  end.
+
+(* source tokens -> tokens of the reference grammar: padding disappears, "#" directly followed by an
+   unsigned number is the complement of a cell *)
+Fixpoint strip (ts : list stok) : list gtok :=
+  match ts with
+  | [] => []
+  | t :: r =>
+      match t with
+      | SPad _ => strip r
+      | SNum pos n => TLeaf pos n :: strip r
+      | SLP => TLParen :: strip r
+      | SRP => TRParen :: strip r
+      | SColon => TColon :: strip r
+      | SHash =>
+          match r with
+          | SNum true n :: r' => TCompl n :: strip r'
+          | _ => THash :: strip r
+          end
+      end
+  end.
+
+(* "#" directly followed by a negative number is no MCNP geometry (MontePy reads it as the complement
+   of the cell with the absolute number) *)
+Fixpoint hash_neg (ts : list stok) : bool :=
+  match ts with
+  | [] => false
+  | t :: r =>
+      orb (match t, r with SHash, SNum false _ :: _ => true | _, _ => false end) (hash_neg r)
+  end.
+
 (* ------------------------------------------------------------------ wire *)
 Open Scope string_scope.
 
